@@ -7,6 +7,8 @@ THEOREMS = ['FlexVerif.bufferOp_start', 'FlexVerif.doWrap_start', 'FlexVerif.inp
 STACK_THEOREMS = ['FlexVerif.C05Stack.' + t for t in ('push_refines', 'pop_refines', 'pop_empty', 'top_refines', 'begin_refines',
                                                       'lexInit_refines', 'stack_refines', 'never_out_of_bounds', 'start_state_encoding')]
 
+STACK_THEOREMS += ['FlexVerif.C05StackC99.' + t for t in ('push_same', 'cstep99_same', 'stack_refines_c99')]
+
 
 def regen_startstack():
     """translate yy_push_state / yy_pop_state / yy_top_state / yybegin / yystart / the initialisation of yy_start from a scanner
@@ -16,15 +18,19 @@ def regen_startstack():
     flex, src = flexrun.build_flex()
     try:
         body, info = gen_startstack.generate(flex, flexrun.scratch_root())
+        body99, info99 = gen_startstack.generate_c99(flex, flexrun.scratch_root())
     except gen_startstack.TranslateError as e:
         return None, str(e)
-    path = os.path.join(common.LEAN_DIR, 'FlexVerif', 'Gen', 'StartStack.lean')
+    info = dict(info or {}); info['c99'] = info99
+    files = [(os.path.join(common.LEAN_DIR, 'FlexVerif', 'Gen', 'StartStack.lean'), body),
+             (os.path.join(common.LEAN_DIR, 'FlexVerif', 'Gen', 'StartStackC99.lean'), body99)]
     lock = open(os.path.join(common.LEAN_DIR, '.build.lock'), 'w')
     fcntl.flock(lock, fcntl.LOCK_EX)
     try:
-        old = open(path).read() if os.path.exists(path) else ''
-        if old != body:
-            open(path, 'w').write(body)
+        for path, text in files:
+            old = open(path).read() if os.path.exists(path) else ''
+            if old != text:
+                open(path, 'w').write(text)
     finally:
         fcntl.flock(lock, fcntl.LOCK_UN)
         lock.close()
